@@ -97,6 +97,83 @@ def symmetry_case(chk, g, r):
         chk.add_sample({"call": what[:300], "reported": str(res)[:300]})
 
 
+def denom_symmetry_cases(chk, g, r, quick):
+    """EriOrbenergy.denom_eri_sym: the common symmetry of the remainder and
+    the orbital-energy denominator, judged at summand level"""
+    from adcgen.eri_orbenergy import EriOrbenergy
+    from adcgen.indices import get_symbols
+    from adcgen.sympy_objects import (AntiSymmetricTensor, NonSymmetricTensor,
+                                      Amplitude)
+    from . import c13
+    i, j, a, b = get_symbols("ijab")
+
+    def E(s_):
+        return NonSymmetricTensor(tn.orb_energy, (s_,))
+    V_ = AntiSymmetricTensor(tn.eri, (i, j), (a, b), 0)
+    X_ = Amplitude("X", (a, b), (i, j))
+    W_ = AntiSymmetricTensor("Wq", (a,), (b,), 0)
+    cases = [
+        V_ / (E(i) - E(j)),                       # remainder odd, bracket odd
+        V_ / (E(a) + E(b) - E(i) - E(j)),         # odd / even
+        V_ * X_ / (E(i) - E(j)),                  # even / odd
+        V_ / ((E(i) - E(j)) * (E(a) - E(b))),     # odd in ij and in ab
+        V_ * W_ / ((E(i) - E(j)) ** 2 * (E(a) + E(b) - E(i) - E(j))),
+        V_ / ((E(i) - E(j)) ** 3),
+        X_ * W_ / (E(a) - E(b)),
+    ]
+    for _ in range(10 if quick else 100):
+        g.new_expression(True)
+        try:
+            t = c13.fraction_term(g, r, [])
+        except RuntimeError:
+            continue
+        if t is not None and t != 0:
+            cases.append(t)
+    for term in cases:
+        expr = Expr(term)
+        if len(expr) != 1:
+            continue
+        eo, exc = guarded(EriOrbenergy, expr.terms[0])
+        if exc:
+            continue
+        res, exc = guarded(eo.denom_eri_sym)
+        chk.count("symmetry_calls")
+        what = f"EriOrbenergy({term}).denom_eri_sym()"
+        if exc:
+            if exc["type"] == "NotImplementedError":
+                continue
+            chk.report_direct("symmetry:exception", f"{what} raised "
+                              f"{exc['type']}: {exc['msg']}", exc)
+            continue
+        res = {k: v for k, v in res.items() if v is not None}
+        if not res:
+            continue
+        # the fraction without its numerator: remainder / denominator
+        frac_expr = Expr(eo.eri.sympy / eo.denom.sympy)
+        ctx = adapter.Ctx()
+        try:
+            pre = adapter.project_expr(frac_expr, ctx)
+        except adapter.Unsupported:
+            continue
+        if len(pre) != 1:
+            continue
+        tgt = sorted(set(adapter.term_indices(pre[0])))
+        if len(tgt) > 7:
+            continue
+        adapter.fill_order(pre, tgt)
+        syms = [{"ps": perms_rec(ctx, perms), "f": int(f)}
+                for perms, f in res.items()]
+        bkn = events.collect_bk(ctx, [(pre, True)])
+        szs, models = models_for(ctx, [pre], tgt, bkn, sizes=[(2, 2)])
+        chk.add_event({
+            "op": "symmetry", "key": "symmetry:denom_eri_sym",
+            "what": what[:400], "idx": ctx.idx, "tgt": tgt,
+            "names": ctx.name_list(), "models": models, "pre": pre,
+            "post": [], "tabhint": [[] for _ in ctx.names],
+            "a": {"syms": syms},
+            "text": {"pre": str(term)[:300], "post": str(res)[:500]}})
+
+
 def antisym_sum(g, r, targets, pairs):
     terms = [g.term(targets, kinds=r.choice(["AAN", "AVM", "VMf", "ANN",
                                              "VD", "MVD"]),
@@ -288,13 +365,16 @@ def run(chk):
             symmetry_case(chk, g, r)
         except RuntimeError:
             pass
+    denom_symmetry_cases(chk, g, r, quick)
     for _ in range(80 if quick else 800):
         exploit_case(chk, g, r)
     for _ in range(80 if quick else 800):
         sort_case(chk, g, r)
     chk.judge(chunk=400)
     return chk.finish(
-        rule="(1) Term.symmetry (all / only_contracted / only_target) and "
+        rule="(1) Term.symmetry (all / only_contracted / only_target), "
+             "EriOrbenergy.denom_eri_sym (remainder x orbital-energy "
+             "denominators, also brackets that are odd under an exchange) and "
              "Obj.symmetry on seeded terms (repeated tensors, symbolic "
              "denominators, squares): every reported (permutation, +-1) is "
              "checked by TLC at summand level for all index assignments; (2) "
